@@ -756,6 +756,12 @@ func init() {
 					return fmt.Errorf("unknown type %q", cs.Type)
 				}
 				rn.checkObject(ti, profByName(cs.Profile), cs.Seed, 1<<30, cs.Leaf)
+			case "noncanonical":
+				ti := findType(cs.Type)
+				if ti == nil {
+					return fmt.Errorf("unknown type %q", cs.Type)
+				}
+				rn.nonCanonicalCase(ti, profByName(cs.Profile), cs.Seed, cs.Mut)
 			case "memo":
 				ti := findType(cs.Type)
 				if ti == nil {
@@ -779,6 +785,7 @@ func init() {
 		rn.utf8Probe()
 		rn.goldenVectors()
 		rn.memoFamily(c.Scale(60, 1500))
+		rn.nonCanonicalFamily(c.Scale(10, 150))
 		perType := c.Scale(25, 250) // random-profile objects per type (besides the 4 fixed profiles)
 		maxMut := c.Scale(40, 120)
 		for i := range registry {
